@@ -44,7 +44,7 @@ func vxCheckHeap(q *Queue, tag string) {
 }
 
 func H20qStep()  { h20qStep(6) }
-func H20qStepQ() { h20qStep(4) }
+func H20qStepQ() { h20qStep(6) }
 
 // h20qStep: one operation from an arbitrary valid heap (inductive step).
 func h20qStep(max int) {
